@@ -9,9 +9,17 @@ canonical forms (`vt.canon.canon`) of the two resulting payloads are equal.
 Recipes (plain JSON, every list/int may be shrunk; the builders are total: an out-of-range index is
 taken modulo the pool, a reference to something that does not exist is dropped):
 
-  {"kind": "gen", "pattern": PAT, "payload": PAY, "recursive": bool}
-  {"kind": "corpus", "key": "<file>#<chunk>#<n>", "payload": PAY, "recursive": bool}
-  {"kind": "corpus_own", "key": ...}          payload = the non-pdl top-level ops of that chunk
+  {"kind": "gen", "pattern": PAT, "payload": PAY, "recursive": bool, "greedy": bool}
+  {"kind": "corpus", "key": "<file>#<chunk>#<n>[~test.op]", "payload": PAY, "recursive": ..., "greedy": ...}
+  {"kind": "corpus_own", "key": ..., ...}     payload = the non-pdl top-level ops of that chunk
+  {"kind": "text", "pattern_text": "<mlir>", "payload": PAY, ...}   committed witnesses of corpus patterns
+  recursive = PatternRewriteWalker(apply_recursively=...); greedy = both patterns wrapped in a
+  GreedyRewritePatternApplier (dead-code elimination on), as ApplyPDLPass does.
+
+Signatures: {"check": "one_path_raises", path, stage, exc, where (innermost xdsl frame), msg} and
+{"check": "payload_differs", match_features, rewrite_features, payload_features, recursive, greedy,
+ "m:<f>"/"r:<f>"/"p:<f>": "1" per feature} where the features are those of the case after an internal
+delta-debugging pass that keeps the sub-oracle fixed (run_one), i.e. of the shrunk pattern.
 
   Throughout, 0 is the plainest choice, so lowering an int never adds a constraint.
   PAT = {"types": [pt..]            pdl.type pool, index into PTYPES (0 = unconstrained)
@@ -52,18 +60,23 @@ RULE = ("generated single-pattern PDL modules (root pdl.operation named test.op/
         "rewrite = erase / replace with matched values / replace with a newly created op reusing matched "
         "operands, attributes, types or new constants / extra created ops, on the root or a nested op) and "
         "every pdl.pattern of the repository .mlir corpus with a pdl.rewrite body and no native "
-        "constraint/rewrite, each extracted into its own module; payloads = straight-line func bodies "
+        "constraint/rewrite, each extracted into its own module, plus a variant of it with the op names "
+        "unknown to xDSL (MLIR's foo.op) replaced by test.op so that it can match; payloads = straight-line func bodies "
         "over test.op/arith ops built from instances of the pattern (generic instantiation of the pdl "
         "match DAG), mutated near-misses (other name, other operand, dropped/changed attribute, other "
         "type, extra/missing operand or result), chains feeding a match into another and random ops; "
         "corpus chunks that carry their own payload are also run on it. Oracle: canon(payload after "
         "PDLRewritePattern) == canon(payload after convert-pdl-to-pdl-interp + PDLInterpRewritePattern), "
-        "same PatternRewriteWalker settings (apply_recursively False; True as well for strictly "
-        "decreasing rewrites); an exception on exactly one path is a violation, on both a discard; a "
+        "same driver on both paths (PatternRewriteWalker apply_recursively False, True as well for "
+        "rewrites that create no op; bare pattern or, for both, GreedyRewritePatternApplier with its "
+        "dead-code elimination as ApplyPDLPass uses); an exception on exactly one path is a violation, on both a discard; a "
         "watchdog turns non-termination into inconclusive. Non-trivial: the payload was changed by at "
         "least one path.")
 ASSUMPTIONS = ["vt.canon positional isomorphism is the intended notion of 'equivalent IR'",
                "a pattern that makes both paths raise is outside the domain (discarded)",
+               "the two PDL passes differ in their driver (ApplyPDLPass wraps the pattern in a "
+               "GreedyRewritePatternApplier that also erases dead pure ops, ApplyPDLInterpPass does not); "
+               "the property is about the pattern, so both paths always get the same driver",
                "the converted module is driven exactly as ApplyPDLInterpPass drives it "
                "(Interpreter + PDLInterpFunctions + PDLInterpRewritePattern on func 'matcher')"]
 
@@ -993,6 +1006,9 @@ def texts_of(recipe):
         ptxt, mf, rf, _ = pattern_text(recipe["pattern"])
         paytxt, pf = payload_text(recipe["payload"])
         return ptxt, paytxt, mf, rf, pf
+    if kind == "text":          # self-contained witness: the pattern module as MLIR text
+        paytxt, pf = payload_text(recipe["payload"])
+        return recipe["pattern_text"], paytxt, ["text"], [], pf
     pats = corpus_patterns()
     if recipe["key"] not in pats:
         raise RecipeInvalid(f"corpus pattern {recipe['key']} not found")
